@@ -49,4 +49,5 @@ theorem xmss_QRLDescriptor_GetHeight : Gen.Skel.xmss_QRLDescriptor_GetHeight = "
 theorem xmss_QRLDescriptor_GetHashFunction : Gen.Skel.xmss_QRLDescriptor_GetHashFunction = "b42b1986e3505099" := by decide
 theorem xmss_QRLDescriptor_GetSignatureType : Gen.Skel.xmss_QRLDescriptor_GetSignatureType = "5052505240649642" := by decide
 theorem xmss_QRLDescriptor_GetAddrFormatType : Gen.Skel.xmss_QRLDescriptor_GetAddrFormatType = "ae2f4a711c1d9eae" := by decide
+theorem misc_ToByteBigEndian : Gen.Skel.misc_ToByteBigEndian = "46159521b4343e77" := by decide
 end Qrl.Tie.C04
